@@ -183,13 +183,17 @@ DATA_MIX = [('normal',), ('normal', 'scaled'), ('normal', 'scaled', 'positive', 
 
 
 def graph_workload(ctx, case, rng, multi_sub_p=0.15, safe_regex=True, cfg_pool=None, n_random=2,
-                   shipped=True, data_mix=None, rules_as_shipped=True, star_p=0.5, **model_kw):
+                   shipped=True, data_mix=None, rules_as_shipped=True, star_p=0.5, fanout_p=0.1, **model_kw):
   """Yields (spec, src_model, datasets, label, run, accepted_rules) per recipe tried.
 
   accepted_rules is the rule list in (regex, selector, cfg-name) form -- also for
   shipped recipes (their catalogue equivalent), so that oracles can resolve them.
   """
-  spec = models.model_for_case(rng, multi_sub_p=multi_sub_p, **model_kw)
+  fan = None
+  if fanout_p and rng.random() < fanout_p:
+    spec, fan = models.t_fanout(rng)
+  else:
+    spec = models.model_for_case(rng, multi_sub_p=multi_sub_p, **model_kw)
   mix = data_mix or DATA_MIX
   cls = mix[int(rng.integers(len(mix)))]
   datasets = make_data(rng, spec, classes=cls)
@@ -207,6 +211,14 @@ def graph_workload(ctx, case, rng, multi_sub_p=0.15, safe_regex=True, cfg_pool=N
     name, rec = shipped_list()[case % len(shipped_list())]
     todo.append(('shipped:' + name, None, rec, recipes.SHIPPED_AS_RULES[name]))
   for _ in range(n_random):
+    if fan:
+      # every consumer of the fan-out tensor gets its own name-targeted rule -> up to k consumer groups on one tensor
+      pool = [c for c in (cfg_pool or recipes.GOOD) if c in ('srq8a_cw', 'srq8s_cw', 'srq16_cw', 'srq8a_tw', 'srq16_tw', 'drq8_cw', 'wo8a_cw', 'noq')] or list(cfg_pool)
+      rr = [(re.escape(out_name), sel, str(rng.choice(pool))) for sel, out_name in fan if rng.random() < 0.9]
+      if rng.random() < 0.3:
+        rr.insert(0, ('.*', '*', str(rng.choice(pool))))
+      todo.append(('rules', rr, None, None))
+      continue
     todo.append(('rules', recipes.random_rules(rng, src, safe_regex=safe_regex, cfg_pool=cfg_pool, star_p=star_p), None, None))
   for label, rules, recipe, as_rules in todo:
     run = pipeline(spec, datasets, rules=rules, recipe=recipe)
